@@ -7,6 +7,14 @@ ROOT = Path('/verif')
 P = {
  'C01': ('Emissions', 'Lean theorems over ℝ on a generic-scalar model of the inventory assembly (windowing, LTO mode zeroing, APU/GSE parts, totals, NOx/SOx splits, life-cycle term) + correspondence of the Float model with compute_emissions on generated flights/configurations + the 17 balance clauses on the implementation output',
          'EI arrays enter the model as inputs (C12 decides the EI kernels); IEEE rounding not modelled (rtol 1e-9); option combinations that raise belong to C11'),
+ 'C03': ('StoreCodec', 'Lean model of the NetCDF codec (encode/decode per dimension case with the file species list, optional/required handling, convert_in, layouts, create_associated as map, digests); theorems decode∘encode = id for every field-set shape/species subset/unset pattern under the explicit `fits` predicate, layout independence, reopen identity, slot injectivity on the regenerated Species order, digest mismatch detection (MD5 injectivity as hypothesis); correspondence with real stores on generated registered field sets',
+         'netCDF4/HDF5 as a typed array store with fill values; MD5 as an injective oracle (hypothesis); four open findings accepted in as-is form (unset optional string reads empty, None species field, species dimension fixed by first trajectory, digest text not injective)'),
+ 'C12': ('EI', 'generic-scalar Lean transcription of the cited equations (ISA, FFM2 SLS, BFFM2 NOx + speciation, BFFM2 HC/CO, SOx, FOA3 / fuel-flow PMvol, SCOPE11, MEEM); theorems over ℝ (pressure/altitude inverses, continuity at the tropopause, linear scaling, clamping, sulfur conservation, non-negativity, thrust category totality/monotonicity); Float model vs numpy implementation rtol 1e-9 over the whole stated input range',
+         '"agree with the published equations" means with our transcription of them (auditable in AeicModel/EI.lean); libm vs numpy 1-ulp differences tolerated; two open findings (BFFM2 humidity reference constant, MEEM pressure coefficient unbounded) accepted in as-is form'),
+ 'C15': ('Geo', 'Lean model of GroundTrack (cumulative index, bisect lookup, location, overstep, step, azimuth mod 360) and Mission.gc_distance over an abstract geodesic solver; theorems under per-leg geodesic laws (hypotheses, shown satisfiable by a Manhattan-world instance): total = Σ leg distances, location on track at d, step = location, overstep on the same geodesic, azimuth in [0,360], out of range refused, gc distance = track length and symmetric; correspondence with an exact Manhattan stub (exact) and with pyproj as oracle',
+         'that pyproj geodesics are WGS-84 geodesics is trusted; the float fact (−ε) % 360.0 == 360.0 is checked bitwise by the harness'),
+ 'C16': ('Wind', 'Lean model of ISA pressure level, slab/hour selection, trilinear interpolation (outside ⇒ refused), heading decomposition (as-is and intended), hypot; theorems over ℝ for the intended variant (zero wind, tailwind adds, headwind subtracts, rotation invariance, bounds, interpolation within corner values) and for the as-is code (zero wind, bounds) with a proved negation witness; correspondence on synthetic ERA5-style files',
+         'xarray/scipy interpolation re-modelled; one open finding (heading components swapped; repair would change a pinned test value) accepted in as-is form'),
  'C04': ('Grid', 'Lean theorems over ℝ (pieces of a segment sum to the segment value times the length ratio; exact conservation for an additive measure; never less for a metric; antimeridian split and zero-length rule) on a line-by-line model of grid.py + correspondence with Gridder.grid_trajectory under an exact stub measure (bit-identical) and under real pyproj',
          'the size of the great-circle excess is measured, not proved; shapely stubbed (polygon gridding untouched); numpy searchsorted/sort re-modelled'),
  'C05': ('Grid', 'Lean theorems over ℝ (each piece lies in one cell, path order, share = length share, altitude/time/state from the start point, untouched cells get nothing, output lengths match) on the same grid model + correspondence + parametric and dense-sampling oracles on the implementation output',
@@ -34,11 +42,7 @@ P = {
 }
 PENDING = {
  'C02': 'builder (trajectory container/legacy builder) model still under construction in this session; not yet claimed',
- 'C03': 'store codec model still under construction in this session; not yet claimed',
  'C06': 'performance table model still under construction in this session; not yet claimed',
- 'C12': 'EI/atmosphere models still under construction in this session; not yet claimed',
- 'C15': 'ground-track model still under construction in this session; not yet claimed',
- 'C16': 'wind model still under construction in this session; not yet claimed',
  'C17': 'builder state-machine model still under construction in this session; not yet claimed',
 }
 import sys
